@@ -100,4 +100,18 @@ classify = C11.classify
 nontrivial = C11.nontrivial
 describe = C11.describe
 shrink = C11.shrink
-generate = C11.generate
+
+
+def generate(rnd, tier, scale):
+    # whole records are far bulkier than outcome tuples: fewer, smaller trees in the thorough tier
+    if tier == "quick":
+        yield from C11.generate(rnd, tier, scale)
+        return
+    n = 0
+    for case in C11.generate(rnd, tier, scale):
+        if RC.count_paths(case["tree"]) > 600:
+            continue
+        n += 1
+        yield case
+        if n >= int(6000 * scale):
+            return
